@@ -44,6 +44,10 @@ impl Recipe {
             }
         }
         for name in &self.funcs {
+            if name == "ctxfn" {
+                b.add_function(name, funcs::CtxFn).expect("function names are unique");
+                continue;
+            }
             let s = funcs::sig(name).expect("known harness function");
             b.add_function(name, funcs::definition(&s)).expect("function names are unique");
         }
